@@ -25,6 +25,7 @@ const (
 	POversize
 	PLocalCloseWhileBlocked
 	PEmptyPayload
+	PKeepAlive
 )
 
 var ProbeNames = map[int]string{
@@ -36,6 +37,7 @@ var ProbeNames = map[int]string{
 	POversize:               "payload_too_large_to_frame",
 	PLocalCloseWhileBlocked: "local_close_while_receive_blocked",
 	PEmptyPayload:           "empty_payload",
+	PKeepAlive:              "keep_alive_packets_in_the_stream",
 }
 
 const maxLen = 0x1FFFF
@@ -84,6 +86,7 @@ type plan struct {
 	wiring  int
 	lens    []int
 	lens2   []int // duplex: frames of the reverse direction; two sessions: frames of the second session
+	keepAt  []int // sut-receives: RFC 1002 session keep-alive packets (85 00 00 00) inserted before these frame indexes
 	twoSess bool  // sut-receives: the transport is closed after recv1 frames and connected again (second session)
 	recv1   int
 	cutKind int
@@ -218,6 +221,14 @@ func genPlan(o hx.Opts) *plan {
 	if p.wiring == WireDuplex || p.twoSess {
 		p.cutKind = cutNone
 	}
+	ka, k1, k2 := hx.G(6), hx.G(maxFrames+1), hx.G(maxFrames+1)
+	if p.wiring == WireSUTRecv && !p.twoSess && ka == 0 {
+		p.cutKind = cutFIN // the peer closes after everything: the receiver's loop always ends
+		p.keepAt = []int{k1 % (len(p.lens) + 1)}
+		if k2%2 == 0 {
+			p.keepAt = append(p.keepAt, k2%(len(p.lens)+1))
+		}
+	}
 	return p
 }
 
@@ -329,6 +340,32 @@ func Run(seed uint64, index int64, o hx.Opts) *hx.Result {
 				legal = append(legal, p)
 				stream = append(stream, frame(p)...)
 			}
+		}
+		if len(pl.keepAt) > 0 {
+			// the peer's byte stream carries keep-alive packets between session messages; a receiver may reject
+			// them (the pinned tree does) or skip them -- either way it must never turn them into messages
+			var ws []byte
+			fi := 0
+			for _, p := range frames {
+				if len(p) > maxLen {
+					continue
+				}
+				for _, k := range pl.keepAt {
+					if k == fi {
+						ws = append(ws, 0x85, 0, 0, 0)
+					}
+				}
+				ws = append(ws, frame(p)...)
+				fi++
+			}
+			for _, k := range pl.keepAt {
+				if k >= fi {
+					ws = append(ws, 0x85, 0, 0, 0)
+				}
+			}
+			stream = ws
+			pl.cutAt = len(stream)
+			rt.Probe(PKeepAlive)
 		}
 		if pl.cutKind != cutNone {
 			off, pos := pl.cutAt, 0
@@ -475,7 +512,11 @@ func Run(seed uint64, index int64, o hx.Opts) *hx.Result {
 					bad = &hx.Violation{Class: "connect", Key: "connect", Msg: err.Error()}
 					return
 				}
-				recvs = receiveAll(tr, len(legal), pl.cutKind != cutNone)
+				if len(pl.keepAt) > 0 {
+					recvs = receiveLenient(tr, len(legal)+len(pl.keepAt)+4)
+				} else {
+					recvs = receiveAll(tr, len(legal), pl.cutKind != cutNone)
+				}
 			})
 			rt.Join(sut, -1)
 			tr.Close() // a peer still blocked on a full window is released with an error
@@ -627,6 +668,9 @@ func Run(seed uint64, index int64, o hx.Opts) *hx.Result {
 	if pl.wiring == WireDuplex {
 		desc += fmt.Sprintf(" reverse-frames=%v", pl.lens2)
 	}
+	if len(pl.keepAt) > 0 {
+		desc += fmt.Sprintf(" keep-alive packets before frame(s) %v", pl.keepAt)
+	}
 	if pl.twoSess {
 		desc += fmt.Sprintf(" two-sessions: close after %d receives, reconnect, second-session-frames=%v", pl.recv1, pl.lens2)
 	}
@@ -636,7 +680,9 @@ func Run(seed uint64, index int64, o hx.Opts) *hx.Result {
 	desc += fmt.Sprintf(" seg=%d window=%d", pl.segMode, pl.window)
 	res.Sample = map[string]any{"plan": desc, "sends": len(sends), "receives": len(recvs), "wire_bytes_seen_by_peer": len(wire)}
 	if v == nil && bad == nil {
-		if pl.twoSess {
+		if len(pl.keepAt) > 0 {
+			bad = oracleKeepAlive(frames, recvs)
+		} else if pl.twoSess {
 			pp := *pl
 			pp.wiring = WireSUTRecv
 			bad = oracle(&pp, frames, recvs, nil, nil)
@@ -845,4 +891,49 @@ func receiveAll(tr transport.Transport, expect int, cut bool) []recvRes {
 			return out
 		}
 	}
+}
+
+// receiveLenient keeps calling Receive through errors (a keep-alive may be rejected with an error and the
+// stream still be in sync afterwards) until the stream has ended for good.
+func receiveLenient(tr transport.Transport, maxCalls int) []recvRes {
+	var out []recvRes
+	consecutive := 0
+	for len(out) < maxCalls+8 && consecutive < 3 {
+		d, err := tr.Receive()
+		out = append(out, recvRes{d, err})
+		if err != nil {
+			consecutive++
+		} else {
+			consecutive = 0
+		}
+	}
+	return out
+}
+
+// oracleKeepAlive: whatever the receiver does with keep-alive packets, every message it returns without an
+// error must be the next payload the peer sent, in order; errors are always acceptable here.
+func oracleKeepAlive(frames [][]byte, recvs []recvRes) *hx.Violation {
+	var legal [][]byte
+	for _, p := range frames {
+		if len(p) <= maxLen {
+			legal = append(legal, p)
+		}
+	}
+	ok := 0
+	for _, r := range recvs {
+		if r.err != nil {
+			continue
+		}
+		if ok >= len(legal) {
+			return &hx.Violation{Class: "fabricated", Key: "keep-alive",
+				Msg: fmt.Sprintf("Receive returned a %d-byte message after all %d messages of the peer had been returned; results: %s", len(r.data), len(legal), results(recvs))}
+		}
+		if !bytes.Equal(r.data, legal[ok]) {
+			return &hx.Violation{Class: "boundary", Key: "keep-alive/" + lenBucket(len(legal[ok])),
+				Msg: fmt.Sprintf("with keep-alive packets in the stream, successful Receive #%d returned %d bytes, the next payload the peer sent has %d bytes (equal prefix %d); results: %s",
+					ok, len(r.data), len(legal[ok]), eqPrefix(r.data, legal[ok]), results(recvs))}
+		}
+		ok++
+	}
+	return nil
 }
